@@ -24,7 +24,9 @@ RULE = ("Hypothesis generates a model (N<=4 quick, <=5 thorough), a parallel con
         "single-rank time) three times in a row is a hang.  Before the random search a sweep runs the split container computation of a fixed "
         "two-site model (36 non-vanishing stored components) on 17..40 ranks for the (ranks, components) pairs listed in "
         "coverage.exhaustive_subspace, and Hubbard chains of 6 and 7 sites (blocks up to 1225x1225) are diagonalised on 2-16 ranks: every rank "
-        "must hold H V = V E, V^+ V = 1 and sum(E) = tr H for every block, identically on all ranks.  Non-trivial: P>=2 and (P does not divide the number of jobs/components, or "
+        "must hold H V = V E, V^+ V = 1 and sum(E) = tr H for every block, identically on all ranks.  An eighth of the random cases split the world "
+        "communicator into 2-3 groups that work on *different* models at the same time (eigen-system, weights, averages, G, chi stand-alone and "
+        "container); every rank's answers must equal those of its group's model run alone.  Non-trivial: P>=2 and (P does not divide the number of jobs/components, or "
         "P>components, or components>P, or T>=2 with >=50 frequencies).")
 ASSUMPTIONS = ["tables of the unsplit path / stand-alone compute are checked on rank 0 only (boost::mpi::reduce semantics: other ranks hold no result)",
                "after compute(clear=true) on-demand evaluation is not available by contract and is not requested",
@@ -33,13 +35,27 @@ CONFIG = {
     "quick": {"flavours": ["real", "complex"], "shards": 4, "examples": 60, "min_nontrivial": 5, "budget_s": 80},
     "thorough": {"flavours": ["real", "complex"], "shards": 6, "examples": 400, "min_nontrivial": 500, "budget_s": 3300},
 }
-REQUIRED_CLASSES = {"quick": ["P>=2", "split", "nosplit", "splitting-below-default-tolerance"],
-                    "thorough": ["P>=2", "split", "nosplit", "T>=2", "P>components", "components>P", "vanishing-component", "delays", "P=16", "splitting-below-default-tolerance"]}
+REQUIRED_CLASSES = {"quick": ["P>=2", "split", "nosplit", "splitting-below-default-tolerance", "sub-communicators"],
+                    "thorough": ["P>=2", "split", "nosplit", "T>=2", "P>components", "components>P", "vanishing-component", "delays", "P=16", "splitting-below-default-tolerance", "sub-communicators"]}
 TIMING_PROPERTY = True
 
 
 @st.composite
+def groups_case(draw, tier):
+    """the world communicator split into k groups that work on different models at the same time (a parameter scan distributed over MPI)"""
+    cplx = draw(st.booleans())
+    k = draw(st.sampled_from([2, 2, 3]))
+    P = draw(st.sampled_from([p for p in (2, 3, 4, 5, 6) if p >= k]))
+    mdls = [draw(gen.any_model_st(cplx=cplx, max_modes=4, beta_lo=0.5, beta_hi=30.0, symm_modes=("default", "default", "ignore"))) for _ in range(k)]
+    quads = [list(draw(gen.chi_quad_st(M.n_modes(m["sites"])))) for m in mdls]
+    return {"groups": mdls, "P": P, "quads": quads, "split": draw(st.integers(0, 1)),
+            "delay_seed": draw(st.integers(1, 10 ** 6)), "delay_us": draw(st.sampled_from([0, 300, 3000]))}
+
+
+@st.composite
 def strategy_(draw, tier):
+    if draw(st.sampled_from([False] * 7 + [True])):
+        return draw(groups_case(tier))
     mm = 4 if tier == "quick" else 5
     mdl = draw(gen.any_model_st(max_modes=mm, beta_lo=0.5, beta_hi=30.0, symm_modes=("default", "default", "ignore", "custom"), wide=True))
     near = draw(st.integers(0, 5)) == 0
@@ -105,9 +121,119 @@ def scenario(case):
     return sc
 
 
+def group_scenario(mdl, quad, split):
+    sc = M.pipeline(mdl)
+    sc.add("eigen", "eigen"); sc.add("weights", "weights"); sc.add("averages", "averages"); sc.add("ops 0")
+    N = M.n_modes(mdl["sites"])
+    for i in range(min(N, 2)):
+        for j in range(min(N, 2)):
+            sc.add("gf ct %d %d n 2 0 -1" % (i, j), ("g", i, j))
+    fa = freq_args(mdl["beta"], [[0, 0, 0], [1, -2, 0]])
+    sc.add("chi SA ct %d %d %d %d clear 0 table %s" % (tuple(quad) + (fa,)), "sa")
+    sc.add("chieval SA mats 2 0 0 0 1 -1 1", "sae")
+    sc.add("c4 new"); sc.add("c4 prepareAll 1 %d %d %d %d" % tuple(quad)); sc.add("c4 computeAll %d 0 %s" % (split, fa), "c4c")
+    sc.add("c4 eval %d %d %d %d 1 0 0 0" % tuple(quad), "c4e")
+    return sc
+
+
+def _close(a, b, rtol=1e-9):
+    """numeric comparison of two JSON answers (same structure expected)"""
+    if isinstance(a, dict) and isinstance(b, dict):
+        return set(a) == set(b) and all(_close(a[k], b[k], rtol) for k in a if k != "c")
+    if isinstance(a, list) and isinstance(b, list):
+        if len(a) != len(b):
+            return False
+        flat_a = np.array(_flat(a), dtype=float) if _numeric(a) else None
+        if flat_a is not None and _numeric(b):
+            flat_b = np.array(_flat(b), dtype=float)
+            if flat_a.shape != flat_b.shape:
+                return False
+            if flat_a.size == 0:
+                return True
+            m = max(1.0, float(np.abs(flat_b).max()))
+            return bool(np.all(np.abs(flat_a - flat_b) <= rtol * m + 1e9 * FLOOR[0] * rtol))
+        return all(_close(x, y, rtol) for x, y in zip(a, b))
+    if isinstance(a, (int, float)) and isinstance(b, (int, float)):
+        return abs(a - b) <= rtol * max(1.0, abs(b))
+    return a == b
+
+
+def _numeric(x):
+    if isinstance(x, list):
+        return all(_numeric(y) for y in x)
+    return isinstance(x, (int, float)) and not isinstance(x, bool)
+
+
+def _flat(x):
+    if isinstance(x, list):
+        out = []
+        for y in x:
+            out += _flat(y)
+        return out
+    return [x]
+
+
+def groups_execute(case, ctx):
+    mdls = case["groups"]; k = len(mdls); P = case["P"]
+    flavour = "complex" if mdls[0]["cplx"] else "real"
+    classes = ["sub-communicators", "P>=2"]
+    subs = [group_scenario(m, q, case["split"]) for m, q in zip(mdls, case["quads"])]
+    FLOOR[0] = max(chi_floor(m["beta"], M.n_modes(m["sites"])) for m in mdls)
+    refs = []
+    t0 = time.time()
+    for sc_g in subs:
+        r = ctx.run(flavour, sc_g, timeout=300, fresh=True)
+        if r.died or any("exc" in r.by_line[ln] for ln in r.by_line):
+            return Result("ok", classes + ["reference-exception"], False)
+        refs.append(r)
+    t1 = time.time() - t0
+    comb = M.Scenario()
+    comb.add("split %d" % k)
+    offs = []
+    for g, sc_g in enumerate(subs):
+        offs.append(len(comb.lines))
+        for ln in sc_g.lines:
+            comb.add("group %d %s" % (g, ln))
+    env = {}
+    if case["delay_us"]:
+        env = {"POMEROL_VERIF_DELAY_SEED": str(case["delay_seed"]), "POMEROL_VERIF_DELAY_MAX_US": str(case["delay_us"])}
+    timeout = max(60.0, 100.0 * t1)
+    answers, status, stderr = run_mpi(flavour, comb, P, threads=1, timeout=timeout, extra_env=env, wd=ctx.wd)
+    if status.startswith("timeout"):
+        timeout = max(150.0, 400.0 * t1)
+        answers, status, stderr = run_mpi(flavour, comb, P, threads=1, timeout=timeout, extra_env=env, wd=ctx.wd)
+
+    def fail(what, sig):
+        return Result("fail", classes, True, {"what": what, "P": P, "groups": k, "env": env, "scenario": comb.text(), "flavour": flavour, "stderr": stderr[-2500:]}, sig)
+    if status.startswith("timeout"):
+        return fail("the %d-rank run with %d sub-communicators did not terminate within %.0f s (the models one after the other on one rank: %.2f s)" % (P, k, timeout, t1), "hang")
+    if status != "ok":
+        return fail("mpiexec: %s" % status, "mpi-exit")
+    for r, a in enumerate(answers):
+        g = r % k
+        sc_g = subs[g]; ref = refs[g]
+        for tag, ln in sc_g.tags.items():
+            got = a.by_line.get(offs[g] + ln)
+            want = ref.by_line.get(ln)
+            if got is None or "exc" in got:
+                return fail("rank %d (group %d): '%s' gave %s" % (r, g, sc_g.lines[ln - 1][:80], got and got.get("exc")), "groups-exc")
+            if tag == "c4c" and not case["split"] and a.by_line.get(1, {}).get("rank", 0) != 0:
+                continue        # unsplit path: tables only on the root of the (sub-)communicator
+            if tag == "sa" and a.by_line.get(1, {}).get("rank", 0) != 0:
+                got = dict(got, table=want["table"])     # stand-alone compute: table on the root only
+            if tag in ("eigen",):
+                got = {"all": got["all"], "ground": got["ground"], "values": got["values"]}; want = {"all": want["all"], "ground": want["ground"], "values": want["values"]}
+            if not _close(got, want):
+                return fail("rank %d (group %d of %d sub-communicators): answer to '%s' differs from the run of that model alone: %s vs %s" % (
+                    r, g, k, sc_g.lines[ln - 1][:80], json.dumps(got)[:300], json.dumps(want)[:300]), "groups:" + str(tag if isinstance(tag, str) else tag[0]))
+    return Result("ok", classes, True)
+
+
 def execute(case, ctx):
     if "big" in case:
         return big_execute(case, ctx)
+    if "groups" in case:
+        return groups_execute(case, ctx)
     mdl = case["model"]
     P, T = case["P"], case["T"]
     classes = model_classes(mdl) + ["P=%d" % P if P in (1, 16) else "P>=2", "T>=2" if T >= 2 else "T=1", "split" if case["split"] else "nosplit"]
